@@ -1,4 +1,5 @@
 """C04 — stream elements keep the handshake contract and never stall forever."""
+from migen import Mux, Signal
 from vf.runner import Job
 from vf import streams
 
@@ -60,8 +61,22 @@ def _packet(kind, K, **kw):
     if kind == "packetizer":
         m = c16.PktzMon(kw["header"], kw["dw"])
         bad = valid_stable_monitor(m, m.dut.source, "source")
-        return H("packetizer_%s_d%d.stable" % (kw["header"], kw["dw"]), m, m.free, rigid=[m.B], assume=[m.pc.asm, m.no_ovf], bad=dict(stable=bad), witness=dict(two_packets=m.w), K=K, funcs=F,
-                 cfg=dict(kw), show=m.showl, vcycles=30, excuses=dict(stable=[m.pc.exc]))
+        bads = dict(stable=bad)
+        left = c16.HEADERS[kw["header"]][0] % (kw["dw"] // 8)
+        if left:
+            # unaligned header: the final beat of a packet carries only `left` bytes of the packet, the rest is padding.  The listed finding is that this
+            # padding follows the sink bus while the beat is stalled; everything that carries packet content (valid, last, all bytes of the other
+            # beats, the low `left` bytes of the final beat) must still be stable - decided separately, without excuse
+            src = m.dut.source
+            pend = m.reg(1, "mpend_content"); pd = m.reg(len(src.data), "mpd_content"); pl = m.reg(1, "mpl_content")
+            m.sync += [pend.eq(src.valid & ~src.ready), pd.eq(src.data), pl.eq(src.last)]
+            diff = Signal(len(src.data))
+            m.comb += diff.eq(src.data ^ pd)
+            b2 = Signal(name_override="bad_content_stable")
+            m.comb += b2.eq(pend & (~src.valid | (src.last != pl) | Mux(pl, diff[:8 * left] != 0, diff != 0)))
+            bads["stable_except_padding_of_final_beat"] = b2
+        return H("packetizer_%s_d%d.stable" % (kw["header"], kw["dw"]), m, m.free, rigid=[m.B], assume=[m.pc.asm, m.no_ovf], bad=bads, witness=dict(two_packets=m.w), K=K, funcs=F,
+                 cfg=dict(kw), show=m.showl, vcycles=30)
     raise KeyError(kind)
 
 
@@ -74,6 +89,9 @@ def jobs(tier):
     from vf.props.c16 import HEADERS
     hn = sorted(HEADERS)[0]
     js.append(Job("packetizer_%s_d8.stable" % hn, _packet, dict(kind="packetizer", K=KP, header=hn, dw=8), cost=10))
+    # unaligned header paths (header length not a multiple of the bus width): the beat that mixes header left-over and payload must not change under a stall
+    js.append(Job("packetizer_h6_d32.stable", _packet, dict(kind="packetizer", K=KP, header="h6", dw=32), cost=10))
+    js.append(Job("packetizer_h3_d16.stable", _packet, dict(kind="packetizer", K=KP, header="h3", dw=16), cost=10))
     if tier == "thorough":
         js += [Job("packet_arbiter_3.stable", _packet, dict(kind="arbiter", K=KP, n=3), cost=12), Job("packet_dispatcher_3.stable", _packet, dict(kind="dispatcher", K=KP, n=3), cost=12)]
     for e in streams.catalogue():
